@@ -678,3 +678,232 @@ Proof.
   - intros g f Hg. now apply lvl_step.
   - now apply compare_lvl.
 Qed.
+
+(* ------------------------------------------------------------------ *)
+(* readable consequences of the master relation                        *)
+(* ------------------------------------------------------------------ *)
+Lemma lvl_in_keys ordered ren r ch0 ch1 : lvl ordered ren r ch0 ch1 ->
+  forall x, In x r ->
+    (new x = false -> In (key x) (keys ch0)) /\
+    (gone x = false -> In (key x) (keys ch1)) /\
+    (In (key x) (keys ch0) -> new x = false).
+Proof.
+  intros H. inversion H as [? ? ? ? N0 N1 L1 L2 L3 L4 L5 L6 L7 L8 L9 L10]; subst. intros x Hx.
+  refine (conj _ (conj _ _)).
+  - intros Hn. rewrite <- L1. apply in_map. apply filter_In. split; [exact Hx|]. now rewrite Hn.
+  - intros G. destruct (new x) eqn:Hn.
+    + destruct (L4 x Hx Hn) as [_ [c1 [H1 [K1 _]]]]. rewrite <- K1. now apply in_map.
+    + destruct (in_dec Z.eq_dec (key x) (keys ch1)) as [Hi|Hno]; [exact Hi|].
+      apply (L5 x Hx Hn) in Hno. congruence.
+  - intros Hi. destruct (new x) eqn:Hn; [|reflexivity]. destruct (L4 x Hx Hn) as [Hno _]. contradiction.
+Qed.
+
+Lemma in_keys_ex l k : In k (keys l) -> exists c, In c l /\ key c = k.
+Proof. intros H. apply in_map_iff in H. destruct H as [c [E Hc]]. eauto. Qed.
+
+(* (A) projection to t0: dropping ADDED/MOVED_HERE children gives t0's child
+   list, in order, below every node present in both trees (a REMOVED /
+   MOVED_TO child is not present in both: nothing is claimed below it) *)
+Inductive proj0 : list rt -> list rt -> Prop :=
+| p0_nil : proj0 [] []
+| p0_new x r l0 : new x = true -> proj0 r l0 -> proj0 (x :: r) l0
+| p0_gone x r c0 l0 : new x = false -> gone x = true -> key x = key c0 -> proj0 r l0 -> proj0 (x :: r) (c0 :: l0)
+| p0_both x r c0 l0 : new x = false -> gone x = false -> key x = key c0 ->
+    proj0 (rch x) (rch c0) -> proj0 r l0 -> proj0 (x :: r) (c0 :: l0).
+
+Lemma proj0_build : forall r l0,
+  keys (filter (fun x => negb (new x)) r) = keys l0 ->
+  (forall x c0, In x r -> In c0 l0 -> new x = false -> gone x = false -> key c0 = key x -> proj0 (rch x) (rch c0)) ->
+  proj0 r l0.
+Proof.
+  induction r as [|x r IH]; intros l0 HK HR.
+  - destruct l0; [constructor|discriminate].
+  - cbn [filter] in HK. destruct (new x) eqn:Hn; cbn [negb] in HK.
+    + apply p0_new; [exact Hn|]. apply IH; [exact HK|]. intros y c0 Hy. apply HR. now right.
+    + destruct l0 as [|c0 l0]; [discriminate|]. cbn [map] in HK. injection HK as K HK.
+      assert (P : proj0 r l0).
+      { apply IH; [exact HK|]. intros y c Hy Hc. apply HR; now right. }
+      destruct (gone x) eqn:G.
+      * now apply p0_gone.
+      * apply p0_both; auto. apply HR; auto; now left.
+Qed.
+
+Lemma lvl_proj0 ordered : forall ren r ch0 ch1, lvl ordered ren r ch0 ch1 -> proj0 r ch0.
+Proof.
+  intros ren r ch0 ch1 H. pose proof (lvl_in_keys _ _ _ _ _ H) as IK.
+  induction H as [ren r ch0 ch1 N0 N1 L1 L2 L3 L4 L5 L6 L7 L8 L9 IH L10].
+  apply proj0_build; [exact L1|]. intros x c0 Hx H0 Hn G K.
+  destruct (IK x Hx) as [_ [I1 _]]. destruct (in_keys_ex _ _ (I1 G)) as [c1 [H1 K1]].
+  apply (IH x c0 c1 Hx Hn H0 H1 K K1). eapply lvl_in_keys. eauto.
+Qed.
+
+(* (B) the marks sit exactly on the children present on one side only *)
+Inductive marks_exact : list rt -> list rt -> list rt -> Prop :=
+| marks_exact_intro r ch0 ch1 :
+    (forall x, In x r -> (new x = true <-> (~ In (key x) (keys ch0) /\ In (key x) (keys ch1)))) ->
+    (forall x, In x r -> (gone x = true <-> (In (key x) (keys ch0) /\ ~ In (key x) (keys ch1)))) ->
+    (forall x, In x r -> In (key x) (keys ch0) \/ In (key x) (keys ch1)) ->
+    (forall c, In c ch0 \/ In c ch1 -> In (key c) (keys r)) ->
+    (forall x c0 c1, In x r -> In c0 ch0 -> In c1 ch1 -> key c0 = key x -> key c1 = key x ->
+       marks_exact (rch x) (rch c0) (rch c1)) ->
+    marks_exact r ch0 ch1.
+
+Lemma lvl_marks_exact ordered : forall ren r ch0 ch1, lvl ordered ren r ch0 ch1 -> marks_exact r ch0 ch1.
+Proof.
+  intros ren r ch0 ch1 H. pose proof (lvl_in_keys _ _ _ _ _ H) as IK.
+  induction H as [ren r ch0 ch1 N0 N1 L1 L2 L3 L4 L5 L6 L7 L8 L9 IH L10].
+  constructor.
+  - intros x Hx. destruct (IK x Hx) as [I0 [I1 I2]]. split.
+    + intros Hn. split; [apply (L4 x Hx Hn)|]. apply I1. destruct (gone x) eqn:G; [|reflexivity].
+      pose proof (gone_new_excl _ G) as Z. unfold new in Hn. congruence.
+    + intros [Hno _]. destruct (new x) eqn:Hn; [reflexivity|]. exfalso. now apply Hno, I0.
+  - intros x Hx. destruct (IK x Hx) as [I0 [I1 I2]]. split.
+    + intros G. pose proof (gone_new_excl _ G) as Hn. fold (new x) in Hn. split; [now apply I0|]. now apply (L5 x Hx Hn).
+    + intros [Hi Hno]. apply (L5 x Hx (I2 Hi)). exact Hno.
+  - intros x Hx. destruct (IK x Hx) as [I0 [I1 I2]]. destruct (new x) eqn:Hn.
+    + right. apply I1. destruct (gone x) eqn:G; [|reflexivity].
+      pose proof (gone_new_excl _ G) as Z. unfold new in Hn. congruence.
+    + left. now apply I0.
+  - intros c [H0|H1]; [|now apply L6].
+    assert (In (key c) (keys (filter (fun x => negb (new x)) r))) by (rewrite L1; now apply in_map).
+    apply in_map_iff in H. destruct H as [x [E Hx]]. apply filter_In in Hx. rewrite <- E. apply in_map. tauto.
+  - intros x c0 c1 Hx H0 H1 K0 K1. destruct (IK x Hx) as [_ [_ I2]].
+    assert (Hn : new x = false) by (apply I2; rewrite <- K0; now apply in_map).
+    apply (IH x c0 c1 Hx Hn H0 H1 K0 K1). eapply lvl_in_keys. eauto.
+Qed.
+
+(* (D) order marks: a child present in both trees carries (i0, i1) = its true
+   index in t0's and in t1's child list iff [ordered] and they differ, and no
+   mark otherwise; the parent carries dc_renumbered iff one of its children
+   carries an order mark *)
+Inductive order_exact (ordered : bool) : option sx -> list rt -> list rt -> list rt -> Prop :=
+| order_exact_intro ren r ch0 ch1 :
+    (forall x i0 i1 c0 c1, In x r -> nth_error ch0 i0 = Some c0 -> nth_error ch1 i1 = Some c1 ->
+       key c0 = key x -> key c1 = key x ->
+       mark x = (if negb (Nat.eqb i0 i1) && ordered then Some (order_sx i0 i1) else None)) ->
+    ren = (if existsb order_mark r then Some (A 1%Z) else None) ->
+    (forall x c0 c1, In x r -> In c0 ch0 -> In c1 ch1 -> key c0 = key x -> key c1 = key x ->
+       order_exact ordered (get_meta k_ren (rmeta x)) (rch x) (rch c0) (rch c1)) ->
+    order_exact ordered ren r ch0 ch1.
+
+Lemma lvl_order_exact ordered : forall ren r ch0 ch1, lvl ordered ren r ch0 ch1 -> order_exact ordered ren r ch0 ch1.
+Proof.
+  intros ren r ch0 ch1 H. pose proof (lvl_in_keys _ _ _ _ _ H) as IK.
+  induction H as [ren r ch0 ch1 N0 N1 L1 L2 L3 L4 L5 L6 L7 L8 L9 IH L10].
+  constructor.
+  - intros x i0 i1 c0 c1 Hx Hi0 Hi1 K0 K1. destruct (IK x Hx) as [_ [_ I2]].
+    assert (Hn : new x = false) by (apply I2; rewrite <- K0; apply in_map; eapply nth_error_In; eauto).
+    exact (L8 x i0 i1 c0 c1 Hx Hn Hi0 Hi1 K0 K1).
+  - exact L10.
+  - intros x c0 c1 Hx H0 H1 K0 K1. destruct (IK x Hx) as [_ [_ I2]].
+    assert (Hn : new x = false) by (apply I2; rewrite <- K0; now apply in_map).
+    apply (IH x c0 c1 Hx Hn H0 H1 K0 K1). eapply lvl_in_keys. eauto.
+Qed.
+
+(* without [ordered] there is no order mark and no dc_renumbered anywhere
+   below nodes present in both trees *)
+Lemma order_exact_unordered : forall ren r ch0 ch1, order_exact false ren r ch0 ch1 ->
+  forall x c0 c1, In x r -> In c0 ch0 -> In c1 ch1 -> key c0 = key x -> key c1 = key x -> mark x = None.
+Proof.
+  intros ren r ch0 ch1 H. inversion H as [? ? ? ? M _ _]; subst. intros x c0 c1 Hx H0 H1 K0 K1.
+  destruct (In_nth_error _ _ H0) as [i0 Hi0]. destruct (In_nth_error _ _ H1) as [i1 Hi1].
+  rewrite (M x i0 i1 c0 c1 Hx Hi0 Hi1 K0 K1). now rewrite andb_false_r.
+Qed.
+
+(* (C) projection to t1: dropping the REMOVED/MOVED_TO nodes gives t1's
+   parent-child relation.  A node is identified by the path of data objects
+   leading to it (unique under sibling uniqueness); the paths of the projected
+   result are a permutation of t1's paths (the order of siblings is t0's for
+   the common children, followed by the added ones). *)
+Fixpoint drop10 (t : rt) : list rt :=
+  match t with T id i ch => if gone_i i then [] else [T id i (flat_map drop10 ch)] end.
+
+Lemma perm_flat_by_key {X Y W} (kx : X -> Z) (ky : Y -> Z) (F : X -> list W) (G : Y -> list W) :
+  forall l l', NoDup (map kx l) -> NoDup (map ky l') ->
+  (forall x, In x l -> In (kx x) (map ky l')) ->
+  (forall y, In y l' -> In (ky y) (map kx l)) ->
+  (forall x y, In x l -> In y l' -> kx x = ky y -> Permutation (F x) (G y)) ->
+  Permutation (flat_map F l) (flat_map G l').
+Proof.
+  induction l as [|x l IH]; intros l' Nx Ny Hxy Hyx HP.
+  - destruct l' as [|y l']; [constructor|]. exfalso. exact (Hyx y (or_introl eq_refl)).
+  - assert (Hx : In (kx x) (map ky l')) by (apply Hxy; now left).
+    apply in_map_iff in Hx. destruct Hx as [y [Ky Hy]].
+    destruct (in_split _ _ Hy) as [a [b ->]].
+    rewrite flat_map_app. cbn [flat_map].
+    rewrite map_app in Ny. cbn [map] in Ny. pose proof (NoDup_remove _ _ _ Ny) as [Nab Nny].
+    inversion Nx as [|? ? Nnx Nl]; subst.
+    eapply Permutation_trans; [|apply Permutation_app_comm].
+    rewrite <- app_assoc. apply Permutation_app.
+    + apply HP; [now left|apply in_or_app; right; now left|auto].
+    + eapply Permutation_trans; [|apply Permutation_app_comm]. rewrite <- flat_map_app.
+      apply IH.
+      * exact Nl.
+      * now rewrite map_app.
+      * intros x' Hx'. assert (H : In (kx x') (map ky (a ++ y :: b))) by (apply Hxy; now right).
+        rewrite map_app in H |- *. cbn [map] in H. apply in_app_or in H. apply in_or_app.
+        destruct H as [H|[H|H]]; auto. exfalso. apply Nnx. rewrite <- Ky, H. now apply in_map.
+      * intros y' Hy'. assert (H : In (ky y') (map kx (x :: l))).
+        { apply Hyx. apply in_app_or in Hy'. apply in_or_app. destruct Hy'; [now left|right; now right]. }
+        destruct H as [H|H]; [|exact H]. exfalso. apply Nny. rewrite Ky, H, <- map_app. now apply in_map.
+      * intros x' y' Hx' Hy'. apply HP; [now right|]. apply in_app_or in Hy'. apply in_or_app.
+        destruct Hy'; [now left|right; now right].
+Qed.
+
+Lemma flat_map_flat_map {X Y W} (f : X -> list Y) (g : Y -> list W) l :
+  flat_map g (flat_map f l) = flat_map (fun x => flat_map g (f x)) l.
+Proof. induction l as [|x l IH]; [reflexivity|]. cbn. now rewrite flat_map_app, IH. Qed.
+
+Lemma flat_map_filter_nil {X W} (p : X -> bool) (F : X -> list W) l :
+  (forall x, In x l -> p x = false -> F x = []) -> flat_map F l = flat_map F (filter p l).
+Proof.
+  induction l as [|x l IH]; intros H; [reflexivity|]. cbn. destruct (p x) eqn:E; cbn.
+  - f_equal. apply IH. intros; apply H; auto. now right.
+  - rewrite (H x); auto; [|now left]. apply IH. intros; apply H; auto. now right.
+Qed.
+
+Lemma drop10_id : forall x, Forall (fun y => gone y = false) (pre x) -> drop10 x = [x].
+Proof.
+  induction x as [id i ch IH] using rt_ind'. intros H. cbn [pre] in H. inversion H as [|? ? G Hch]; subst.
+  cbn [drop10]. unfold gone in G. cbn [rinfo] in G. rewrite G. do 2 f_equal. clear H.
+  induction ch as [|c ch IHc]; [reflexivity|]. inversion IH as [|? ? Hc Hcs]; subst.
+  cbn [flat_map] in Hch |- *. apply Forall_app in Hch. destruct Hch as [H1 H2].
+  rewrite (Hc H1), IHc; auto.
+Qed.
+
+Lemma drop10_paths x : paths_f (drop10 x) =
+  if gone x then [] else [key x] :: map (cons (key x)) (paths_f (flat_map drop10 (rch x))).
+Proof.
+  destruct x as [id i ch]. unfold gone, key. cbn [drop10 rinfo rch]. destruct (gone_i i); [reflexivity|].
+  cbn [flat_map paths]. now rewrite app_nil_r.
+Qed.
+
+Lemma paths_unfold x : paths x = [key x] :: map (cons (key x)) (paths_f (rch x)).
+Proof. now destruct x. Qed.
+
+Lemma lvl_proj1 ordered : forall ren r ch0 ch1, lvl ordered ren r ch0 ch1 ->
+  Permutation (paths_f (flat_map drop10 r)) (paths_f ch1).
+Proof.
+  intros ren r ch0 ch1 H. pose proof (lvl_in_keys _ _ _ _ _ H) as IK.
+  induction H as [ren r ch0 ch1 N0 N1 L1 L2 L3 L4 L5 L6 L7 L8 L9 IH L10].
+  rewrite flat_map_flat_map.
+  rewrite (flat_map_filter_nil (fun x => negb (gone x))).
+  2:{ intros x _ G. apply negb_false_iff in G. now rewrite drop10_paths, G. }
+  apply (perm_flat_by_key key key).
+  - now apply NoDup_map_filter.
+  - exact N1.
+  - intros x Hx. apply filter_In in Hx. destruct Hx as [Hx G]. apply negb_true_iff in G. now apply (IK x Hx).
+  - intros y Hy. destruct (in_keys_ex _ _ (L6 y Hy)) as [x [Hx K]]. rewrite <- K. apply in_map.
+    apply filter_In. split; [exact Hx|]. apply negb_true_iff. destruct (gone x) eqn:G; [|reflexivity]. exfalso.
+    pose proof (gone_new_excl _ G) as Hn. apply (proj1 (L5 x Hx Hn) G). rewrite K. now apply in_map.
+  - intros x y Hx Hy K. apply filter_In in Hx. destruct Hx as [Hx G]. apply negb_true_iff in G.
+    destruct (new x) eqn:Hn.
+    + destruct (L4 x Hx Hn) as [_ [c1 [H1 [K1 [P O]]]]].
+      assert (c1 = y) by (apply (NoDup_map_inj key ch1); auto; congruence). subst c1.
+      rewrite drop10_id.
+      * cbn [flat_map]. rewrite app_nil_r, P. apply Permutation_refl.
+      * eapply Forall_impl; [|exact O]. intros z Hz. apply Hz.
+    + rewrite drop10_paths, G, paths_unfold, K. apply perm_skip. apply Permutation_map.
+      destruct (IK x Hx) as [I0 _]. destruct (in_keys_ex _ _ (I0 Hn)) as [c0 [H0 K0]].
+      apply (IH x c0 y Hx Hn H0 Hy K0 (eq_sym K)). eapply lvl_in_keys. eauto.
+Qed.
